@@ -114,7 +114,13 @@ func genC01(t *rapid.T) C01Case {
 	scalarKinds := []Kind{KBool, KIncrement, KString, KString, KInt, KInt, KFloat, KFloat, KStringOpt, KIntOpt, KFloatOpt}
 	fo := addFocus(t, spec, scalarKinds)
 	c := C01Case{Spec: spec, Name: fo.Name}
-	a := NewArgvGen(t, spec, safeArgvCfg())
+	acfg := safeArgvCfg()
+	if rapid.IntRange(0, 5).Draw(t, "withro") == 0 {
+		// require-order does not change how options and their values are read before the stop token
+		spec.RequireOrder = true
+		acfg.Positional = 0
+	}
+	a := NewArgvGen(t, spec, acfg)
 	a.Exclude = fo
 	a.AvoidLevel = func(l *Level) bool {
 		_, ok := l.Visible[fo.Name]
@@ -131,6 +137,19 @@ func genC01(t *rapid.T) C01Case {
 			return "-" + key
 		}
 		return "--" + key
+	}
+	// In Bundling mode with Pass/Warn an undeclared letter may lead the bundle that holds the focus letter:
+	// the token is handed on as a whole and the declared letters behind it still count.
+	unkLead := func() string {
+		if spec.Mode != ModeBundling || spec.UnknownMode == UnkFail || rapid.IntRange(0, 2).Draw(t, "funklead") != 0 {
+			return ""
+		}
+		for _, l := range []string{"Q", "W", "Z"} {
+			if key, cands := resolve(a.Cur(), l); key == "" && len(cands) == 0 {
+				return l
+			}
+		}
+		return ""
 	}
 	elem := fo.Kind.Elem()
 	valueText := func(detached bool) string {
@@ -181,7 +200,7 @@ func genC01(t *rapid.T) C01Case {
 					for r := 1; r < rep; r++ {
 						c.Idx = append(c.Idx, len(a.Argv)) // one hit per letter, all on this token
 					}
-					a.Push("focus", "-"+strings.Repeat(single, rep))
+					a.Push("focus", "-"+unkLead()+strings.Repeat(single, rep))
 					i += rep - 1
 					continue
 				}
@@ -210,7 +229,11 @@ func genC01(t *rapid.T) C01Case {
 		case "attached":
 			v := valueText(false)
 			c.V = BS(v)
-			a.Push("focus", dash(key)+"="+v)
+			if ul := unkLead(); ul != "" && len([]rune(key)) == 1 {
+				a.Push("focus", "-"+ul+key+"="+v)
+			} else {
+				a.Push("focus", dash(key)+"="+v)
+			}
 		case "sd-attached":
 			v := valueText(false)
 			c.V = BS(v)
@@ -353,6 +376,9 @@ func checkC01(c C01Case, st *evid.Stats) error {
 	st.Class("form:" + c.Form)
 	st.Class("kind:" + fo.Kind.String())
 	st.Class("mode:" + modeNames[c.Spec.Mode])
+	if c.Spec.RequireOrder {
+		st.Class("require-order")
+	}
 	if out.Panic != "" {
 		return failf("panic: %s", out.Panic)
 	}
@@ -402,7 +428,7 @@ func checkC01(c C01Case, st *evid.Stats) error {
 }
 
 var propC01 = &Prop[C01Case]{ID: "C01", Sub: "scalar",
-	Rule:  "rapid: random definition (all kinds, modes, commands) + one focus scalar/flag option with a generated value text (hostile pool or random bytes) written as --name=v / --name v / -xv / repeated flag / optional without value, surrounded by generated sibling tokens; non-trivial = value text not [a-z0-9]+ (or flag given >=2 times, or optional-without-value followed by another token); distinct by (kind, form, value text, count, mode, neighbour token kinds)",
+	Rule:  "rapid: random definition (all kinds, modes, commands) + one focus scalar/flag option with a generated value text (hostile pool or random bytes) written as --name=v / --name v / -xv / repeated flag / optional without value (in Bundling mode with Pass/Warn also behind an undeclared letter of the same bundle), surrounded by generated sibling tokens; non-trivial = value text not [a-z0-9]+ (or flag given >=2 times, or optional-without-value followed by another token); distinct by (kind, form, value text, count, mode, neighbour token kinds)",
 	Gen:   genC01,
 	Check: checkC01,
 }
